@@ -1,6 +1,9 @@
 pub mod common;
 pub mod modelchk;
 pub mod c01;
+pub mod c02;
+pub mod c04;
+pub mod c15;
 
 use crate::evidence::Shard;
 use crate::runner::{Ctx, Plan};
@@ -8,6 +11,9 @@ use crate::runner::{Ctx, Plan};
 pub fn plan_for(id: &str) -> Option<Plan> {
     Some(match id {
         "C01" => c01::plan(),
+        "C02" => c02::plan(),
+        "C04" => c04::plan(),
+        "C15" => c15::plan(),
         _ => return None,
     })
 }
@@ -15,6 +21,9 @@ pub fn plan_for(id: &str) -> Option<Plan> {
 pub fn shard_for(id: &str, ctx: &Ctx) -> Option<Shard> {
     Some(match id {
         "C01" => c01::shard(ctx),
+        "C02" => c02::shard(ctx),
+        "C04" => c04::shard(ctx),
+        "C15" => c15::shard(ctx),
         _ => return None,
     })
 }
